@@ -43,6 +43,17 @@ Check (C13_payload :
       In (OBind c rid) (outs_of pre) /\
       (forall rid', In (OBind c rid') (outs_of (run_steps cf (init_pst, init_env) evs)) -> rid' = rid) /\
       (forall c', In (OBind c' rid) (outs_of (run_steps cf (init_pst, init_env) evs)) -> c' = c)).
+Check (C13_request_wire :
+  forall (cf : cfg) (evs : list ev) pre p d (len tag : N) fb o tg post (rid c l t : N),
+    run_steps cf (init_pst, init_env) evs = pre ++ (ESend p d len tag fb, o, tg) :: post ->
+    In (OSent rid) o ->
+    In (OBind c rid) (outs_of (run_steps cf (init_pst, init_env) evs)) ->
+    In (OWire c l t) (outs_of (run_steps cf (init_pst, init_env) evs)) ->
+    (l, t) = (len, tag) \/ exists n fl ft, fb = Some (n, fl, ft) /\ (l, t) = (fl, ft)).
+Check (C13_feedback :
+  forall (cf : cfg) (evs : list ev) e o tg (irid : N),
+    In (e, o, tg) (run_steps cf (init_pst, init_env) evs) -> In (OFeed irid true) o ->
+    exists c l t, In (OWireR c l t) o).
 Check (C13_responder_once :
   forall (cf : cfg) (evs : list ev),
     let steps := run_steps cf (init_pst, init_env) evs in
